@@ -61,10 +61,156 @@ Example enum_str_ws_witnesses :
   /\ enum_deser None [([88], EvAtom (AStr [97;32;98])); ([89], EvAtom (AStr [97;9;98]))] [32;97;10;32;98] = Some 0%nat.
 Proof. repeat split; vm_compute; reflexivity. Qed.
 
-(* tuple values (token-list enumerations): serialize raises, deserialize accepts *)
-Lemma enum_tuple_ser_refuted :
+Lemma py_strip_id_local s :
+  s <> [] -> py_isspace (hd 0 s) = false -> py_isspace (last s 0) = false -> py_strip s = s.
+Proof.
+  intros Hne Hh Hl. pose proof (strip_by_wrap_hd_last py_isspace [] s [] eq_refl eq_refl Hne Hh Hl) as A.
+  cbn [app] in A. rewrite app_nil_r in A. exact A.
+Qed.
+
+(* ---- token-list enumerations (tuple values, what the generator emits for list types;
+   serializable since /repo f0dd6fc) ------------------------------------------------------- *)
+Fixpoint tok_values (d : enum_def) : option (list (list str)) :=
+  match d with
+  | [] => Some []
+  | (_, EvTuple l) :: r =>
+      match tok_values r with
+      | Some ls => Some (map (fun a => match a with AStr s => s | _ => [] end) l :: ls)
+      | None => None
+      end
+  | _ => None
+  end.
+
+Definition strs (toks : list str) : list atom := map AStr toks.
+(* a token: non-empty, no whitespace *)
+Definition token_ok (t : str) : bool := negb (length t =? 0)%nat && forallb not_space t.
+
+Lemma atoms_ser_strs m toks : atoms_ser m (strs toks) = Some (toks, m).
+Proof. induction toks as [|t r IH]; [reflexivity|]. cbn. unfold strs in IH. rewrite IH. reflexivity. Qed.
+
+Lemma split_ws_aux_token ws t rest : forall cur,
+  forallb (fun c => negb (ws c)) t = true ->
+  split_ws_aux ws cur (t ++ rest) = split_ws_aux ws (rev t ++ cur) rest.
+Proof.
+  induction t as [|c r IH]; intros cur H; [reflexivity|].
+  cbn [forallb] in H. apply andb_true_iff in H as [Hc Hr]. apply negb_true_iff in Hc.
+  cbn [app split_ws_aux]. rewrite Hc, (IH (c :: cur) Hr). cbn [rev]. rewrite <- app_assoc. reflexivity.
+Qed.
+
+Lemma split_join_tokens toks :
+  forallb token_ok toks = true -> split_ws py_isspace (join [32] toks) = toks.
+Proof.
+  unfold split_ws. induction toks as [|t r IH]; intros H; [reflexivity|].
+  cbn [forallb] in H. apply andb_true_iff in H as [Ht Hr]. unfold token_ok in Ht.
+  apply andb_true_iff in Ht as [Hn Hw]. apply negb_true_iff in Hn.
+  assert (Hw' : forallb (fun c => negb (py_isspace c)) t = true) by exact Hw.
+  destruct r as [|t2 r2].
+  - cbn [join]. pose proof (split_ws_aux_token py_isspace t [] [] Hw') as Q. rewrite app_nil_r in Q. rewrite Q.
+    cbn [split_ws_aux]. rewrite app_nil_r. destruct (rev t) eqn:E; [destruct t; [discriminate|]; apply (f_equal (@length N)) in E;
+      rewrite rev_length in E; discriminate|]. rewrite <- E, rev_involutive. reflexivity.
+  - change (join [32] (t :: t2 :: r2)) with (t ++ [32] ++ join [32] (t2 :: r2)).
+    rewrite split_ws_aux_token by exact Hw'. cbn [app split_ws_aux].
+    replace (py_isspace 32) with true by reflexivity. rewrite app_nil_r.
+    destruct (rev t) eqn:E; [destruct t; [discriminate|]; apply (f_equal (@length N)) in E;
+      rewrite rev_length in E; discriminate|]. rewrite <- E, rev_involutive, (IH Hr). reflexivity.
+Qed.
+
+Lemma join_tokens_strip toks :
+  forallb token_ok toks = true -> py_strip (join [32] toks) = join [32] toks.
+Proof.
+  intros H. destruct toks as [|t r]; [reflexivity|].
+  assert (Ne : join [32] (t :: r) <> []).
+  { cbn [forallb] in H. apply andb_true_iff in H as [Ht _]. unfold token_ok in Ht. apply andb_true_iff in Ht as [Hn _].
+    destruct t; [discriminate|]. destruct r; cbn; discriminate. }
+  assert (Hd : forall toks, forallb token_ok toks = true -> toks <> [] ->
+               py_isspace (hd 0 (join [32] toks)) = false /\ py_isspace (last (join [32] toks) 0) = false).
+  { clear. induction toks as [|t r IH]; intros H Hne; [congruence|].
+    cbn [forallb] in H. apply andb_true_iff in H as [Ht Hr]. unfold token_ok in Ht. apply andb_true_iff in Ht as [Hn Hw].
+    assert (Tn : t <> []) by (destruct t; [discriminate|discriminate]).
+    rewrite forallb_forall in Hw.
+    assert (Hh : py_isspace (hd 0 t) = false).
+    { destruct t as [|c t']; [congruence|]. apply negb_true_iff. apply (Hw c). left. reflexivity. }
+    assert (Hl : py_isspace (last t 0) = false) by (apply negb_true_iff; apply (Hw _ (last_in t 0 Tn))).
+    destruct r as [|t2 r2]; [cbn [join]; split; assumption|].
+    change (join [32] (t :: t2 :: r2)) with (t ++ [32] ++ join [32] (t2 :: r2)).
+    destruct (IH Hr ltac:(discriminate)) as [_ L2]. split.
+    - destruct t; [congruence|exact Hh].
+    - assert (J : join [32] (t2 :: r2) <> []).
+      { cbn [forallb] in Hr. apply andb_true_iff in Hr as [H2 _]. unfold token_ok in H2. apply andb_true_iff in H2 as [N2 _].
+        destruct t2; [discriminate|]. destruct r2; cbn; discriminate. }
+      rewrite last_app_nonempty by (destruct (join [32] (t2 :: r2)); discriminate).
+      rewrite last_app_nonempty by exact J. exact L2. }
+  destruct (Hd (t :: r) H ltac:(discriminate)) as [A B]. apply py_strip_id_local; assumption.
+Qed.
+
+Lemma find_exact_tok v d : forall ls k, tok_values d = Some ls -> find_exact v k d = None.
+Proof.
+  induction d as [|[n ev] r IH]; intros ls k Hs; cbn in Hs; [reflexivity|].
+  destruct ev as [x|l|l]; try discriminate.
+  destruct (tok_values r) as [lr|] eqn:Er; [|discriminate]. cbn [find_exact]. eapply IH. reflexivity.
+Qed.
+
+Definition lstr_eqb (a b : list str) : bool :=
+  (length b =? length a)%nat && (fix go (x y : list str) := match x, y with
+     | [], [] => true | p :: x', q :: y' => str_eqb p q && go x' y' | _, _ => false end) a b.
+
+Lemma match_list_strs m vals toks :
+  match_list m vals (strs toks) = true <-> vals = toks.
+Proof.
+  revert toks; induction vals as [|v r IH]; intros [|t ts]; cbn; try (split; congruence).
+  rewrite andb_true_iff, str_eqb_eq. unfold strs in IH. rewrite IH. split; [intros [-> ->]; reflexivity|intros E; inversion E; auto].
+Qed.
+
+Definition all_strs (l : list atom) : bool := forallb (fun a => match a with AStr _ => true | _ => false end) l.
+
+Lemma find_member_tok m toks d : forall ls k,
+  tok_values d = Some ls ->
+  forallb (fun e => match snd e with EvTuple l => all_strs l | _ => false end) d = true ->
+  find_member m (join [32] toks) toks k d
+  = index_by (fun a b => if list_eq_dec (list_eq_dec N.eq_dec) a b then true else false) toks ls k.
+Proof.
+  induction d as [|[n ev] r IH]; intros ls k Hs Ha; cbn in Hs.
+  - inversion Hs; reflexivity.
+  - destruct ev as [x|l|l]; try discriminate.
+    destruct (tok_values r) as [lr|] eqn:Er; [|discriminate]. inversion Hs; subst ls.
+    cbn [forallb snd] in Ha. apply andb_true_iff in Ha as [Hl Hr].
+    set (tl := map (fun a => match a with AStr s0 => s0 | _ => [] end) l).
+    assert (El : l = strs tl).
+    { subst tl. unfold strs. clear -Hl. induction l as [|a l IH]; [reflexivity|]. cbn in Hl.
+      destruct a; try discriminate. cbn. f_equal. apply IH, Hl. }
+    cbn [find_member enum_match index_by].
+    destruct (list_eq_dec (list_eq_dec N.eq_dec) tl toks) as [E|NE].
+    + assert (M : match_list m toks l = true) by (rewrite El; apply match_list_strs; auto).
+      rewrite M. rewrite El. unfold strs. rewrite map_length, E, Nat.eqb_refl. reflexivity.
+    + assert (M : match_list m toks l = false).
+      { destruct (match_list m toks l) eqn:X; [|reflexivity]. rewrite El in X. apply match_list_strs in X. congruence. }
+      rewrite M, andb_false_r. apply IH; [reflexivity|exact Hr].
+Qed.
+
+(* a member of a token-tuple enumeration serializes to its tokens joined by spaces
+   and reads back as itself *)
+Theorem enum_tokens_roundtrip m d ls i toks :
+  tok_values d = Some ls ->
+  forallb (fun e => match snd e with EvTuple l => all_strs l | _ => false end) d = true ->
+  NoDup ls -> nth_error ls i = Some toks -> forallb token_ok toks = true ->
+  enum_ser m (EvTuple (strs toks)) = Some (join [32] toks, m)
+  /\ enum_deser m d (join [32] toks) = Some i.
+Proof.
+  intros Hs Ha Hnd Hn Ht. split; [cbn [enum_ser]; rewrite atoms_ser_strs; reflexivity|].
+  unfold enum_deser. rewrite (find_exact_tok _ d ls 0 Hs). cbv zeta.
+  rewrite (join_tokens_strip toks Ht), (find_exact_tok _ d ls 0 Hs), (split_join_tokens toks Ht).
+  rewrite (find_member_tok m toks d ls 0 Hs Ha).
+  set (f := fun a b : list str => if list_eq_dec (list_eq_dec N.eq_dec) a b then true else false).
+  assert (Hf : forall x y, f x y = true <-> x = y).
+  { intros x y. unfold f. destruct (list_eq_dec (list_eq_dec N.eq_dec) x y); split; congruence. }
+  transitivity (index_by f toks ls 0); [reflexivity|].
+  rewrite (index_by_nth f Hf ls Hnd i toks 0 Hn). reflexivity.
+Qed.
+
+(* the former refutation witness *)
+Example enum_tuple_witness :
   let v := EvTuple [AStr [97]; AStr [98]] in
-  enum_ser None v = None /\ enum_deser None [([65], v)] [97;32;98] = Some 0%nat.
+  enum_ser None v = Some ([97;32;98], None) /\ enum_deser None [([65], v)] [97;32;98] = Some 0%nat.
 Proof. cbv zeta. split; vm_compute; reflexivity. Qed.
 
 (* ---- int-valued enumerations --------------------------------------------------------- *)
